@@ -283,6 +283,11 @@ func genMsg(r *rand.Rand, tag string, conf srvConf, nonClosing bool) *msgSpec {
 		h.line("Content-Length", fmt.Sprint(len(body)))
 	case "expect-ok", "expect-rej":
 		body = bodyBytes(r, 1+r.Intn(60))
+		if r.Intn(4) == 0 {
+			// an expectation that announces an empty body (Content-Length: 0): a rejection
+			// of it must still not change how later requests are dispatched
+			body = nil
+		}
 		fmt.Fprintf(&h.b, "POST %s HTTP/1.1\r\n", target)
 		commonFields(r, &h, host)
 		h.line("Content-Type", "text/plain")
